@@ -12,6 +12,7 @@ import (
 	"runtime"
 	"strings"
 	"sync"
+	"sync/atomic"
 	"time"
 
 	"go.1password.io/spg"
@@ -211,6 +212,100 @@ func cmdStress(args []string) {
 			}
 		}
 		emw.Emit(map[string]interface{}{"op": "wcellend", "id": 200 + k})
+	}
+	// ---- many DIFFERENT recipes in use at the same time (a bounded process-wide table keyed by the recipe must behave like no table) ----
+	{
+		const nchurn = 40
+		cspecs := make([]CharSpec, nchurn)
+		crs := make([]spg.CharRecipe, nchurn)
+		ccells := make([]*CellEv, nchurn)
+		for k := 0; k < nchurn; k++ {
+			cspecs[k] = CharSpec{Len: 6 + k%5, Allow: int(spg.Letters | spg.Digits), Require: int(spg.Digits), ExcludeChars: o(string(rune('a'+k%26)) + string(rune('A'+k/2)))}
+			cspecs[k].norm()
+			crs[k] = cspecs[k].Recipe()
+			sc := Scenario{Kind: "char", Char: &cspecs[k], Mode: "paths", Paths: 0, Tag: "stress-churn"}
+			ccells[k] = charCellEvents(400+k, sc, 1, &crs[k])[0].(*CellEv)
+		}
+		cres := make([][][]GenRes, *G)
+		var cwg sync.WaitGroup
+		cstop := time.Now().Add(time.Duration(*ms) * time.Millisecond)
+		for g := 0; g < *G; g++ {
+			cres[g] = make([][]GenRes, nchurn)
+			cwg.Add(1)
+			go func(g int) {
+				defer cwg.Done()
+				for i := 0; time.Now().Before(cstop); i++ {
+					k := (i*7 + g*3) % nchurn
+					p, err := crs[k].Generate()
+					if len(cres[g][k]) < 4 {
+						cres[g][k] = append(cres[g][k], ResOf(p, err, nil))
+					}
+				}
+			}(g)
+		}
+		cwg.Wait()
+		for k := 0; k < nchurn; k++ {
+			emc.Emit(ccells[k])
+			for g := 0; g < *G; g++ {
+				for _, r := range cres[g][k] {
+					emc.Emit(LeafEv{Op: "leaf", D: [][2]int{}, Det: -1, Res: r, PathW: []int{}, Conc: 1, Reads: 1, PathProd: []int{}})
+				}
+			}
+			emc.Emit(map[string]interface{}{"op": "cellend", "id": 400 + k})
+		}
+	}
+	// ---- many calls INSIDE their separator function at the same moment: a caller-written function that waits until K callers are in it ----
+	{
+		K := 24
+		if *G > K {
+			K = *G
+		}
+		pw := []string{"one", "two", "three", "kettő", "zebra"}
+		pspec := WLSpec{Words: CPsList(pw), Len: 3, Cap: "none", Sep: "customlist", SepVals: [][]int{o("-")}}
+		pspec.norm()
+		plain, pwl, err := pspec.Build(nil)
+		if err != nil {
+			fatal("%v", err)
+		}
+		sc := Scenario{Kind: "wl", WL: &pspec, Mode: "paths", Paths: 0, Tag: "stress-parked-separators"}
+		pcell := wlCellEvents(300, sc, 1, &plain, pwl)[0]
+		orig := plain.SeparatorFunc
+		var arrived int32
+		release := make(chan struct{})
+		var once sync.Once
+		parked := plain
+		parked.SeparatorFunc = func() (string, spg.FloatE) {
+			if n := atomic.AddInt32(&arrived, 1); n <= int32(K) {
+				if n == int32(K) {
+					once.Do(func() { close(release) })
+				}
+				select {
+				case <-release:
+				case <-time.After(3 * time.Second):
+				}
+			}
+			return orig()
+		}
+		pres := make([][]GenRes, K)
+		var pwg sync.WaitGroup
+		for g := 0; g < K; g++ {
+			pwg.Add(1)
+			go func(g int) {
+				defer pwg.Done()
+				for i := 0; i < 2; i++ {
+					p, err := parked.Generate()
+					pres[g] = append(pres[g], ResOf(p, err, nil))
+				}
+			}(g)
+		}
+		pwg.Wait()
+		emw.Emit(pcell)
+		for g := range pres {
+			for _, r := range pres[g] {
+				emw.Emit(LeafEv{Op: "wleaf", D: [][2]int{}, Det: -1, Res: r, PathW: []int{}, Conc: 1, Reads: 1, PathProd: []int{}})
+			}
+		}
+		emw.Emit(map[string]interface{}{"op": "wcellend", "id": 300})
 	}
 	// ---- shared word list, wordlist recipes and separator functions ----
 	words := []string{"one", "two", "three", "kettő", "ice-cream", "zebra", "größe"}
